@@ -105,6 +105,13 @@ Definition hex4 (l : list ascii) : option (N * list ascii) :=
 
 Definition bytes_to_ascii (l : list N) : list ascii := map ch_of l.
 
+(* the text after a given first character, if it is there *)
+Definition hd_is (c : ascii) (l : list ascii) : option (list ascii) :=
+  match l with
+  | x :: r => if Ascii.eqb x c then Some r else None
+  | [] => None
+  end.
+
 (* string body after the opening quote; acc is reversed output *)
 Fixpoint parse_str (fuel : nat) (l : list ascii) (acc : list ascii) : option (string * list ascii) :=
   match fuel with
@@ -135,17 +142,21 @@ Fixpoint parse_str (fuel : nat) (l : list ascii) (acc : list ascii) : option (st
               if (55296 <=? u1)%N && (u1 <? 57344)%N then
                 (* surrogate: look for a following low surrogate escape *)
                 let lone := parse_str f r3 (rev (bytes_to_ascii (encode_rune 65533)) ++ acc) in
-                match r3 with
-                | "\" :: "u" :: r4 =>
-                  match hex4 r4 with
-                  | Some (u2, r5) =>
-                    if (u1 <? 56320)%N && (56320 <=? u2)%N && (u2 <? 57344)%N then
-                      let cp := ((u1 - 55296) * 1024 + (u2 - 56320) + 65536)%N in
-                      parse_str f r5 (rev (bytes_to_ascii (encode_rune cp)) ++ acc)
-                    else lone
+                match hd_is "\" r3 with
+                | Some r3' =>
+                  match hd_is "u" r3' with
+                  | Some r4 =>
+                    match hex4 r4 with
+                    | Some (u2, r5) =>
+                      if (u1 <? 56320)%N && (56320 <=? u2)%N && (u2 <? 57344)%N then
+                        let cp := ((u1 - 55296) * 1024 + (u2 - 56320) + 65536)%N in
+                        parse_str f r5 (rev (bytes_to_ascii (encode_rune cp)) ++ acc)
+                      else lone
+                    | None => lone
+                    end
                   | None => lone
                   end
-                | _ => lone
+                | None => lone
                 end
               else parse_str f r3 (rev (bytes_to_ascii (encode_rune u1)) ++ acc)
             end
@@ -170,38 +181,52 @@ Fixpoint take_digits (l : list ascii) : list ascii * list ascii :=
   end.
 
 (* number literal: optional minus, 0 or a non-zero digit followed by digits, optional fraction,
-   optional exponent; the longest match, an error if a part is incomplete *)
-Definition parse_num (l : list ascii) : option (list ascii * list ascii) :=
-  let (sign, l1) := match l with "-" :: r => (["-"], r) | _ => ([], l) end in
-  match l1 with
+   optional exponent; the longest match, an error if a part is incomplete. Each part returns the
+   text it consumed and the rest. *)
+Definition num_sign (l : list ascii) : list ascii * list ascii :=
+  match l with "-" :: r => (["-"], r) | _ => ([], l) end.
+
+Definition num_int (l : list ascii) : option (list ascii * list ascii) :=
+  match l with
   | [] => None
-  | d :: r =>
-    if negb (is_digit d) then None else
-    let (int_part, l2) := if Ascii.eqb d "0" then ([d], r) else take_digits l1 in
-    let frac :=
-      match l2 with
-      | "." :: r2 => let (ds, l3) := take_digits r2 in
-                     match ds with [] => None | _ => Some ("." :: ds, l3) end
-      | _ => Some ([], l2)
-      end in
-    match frac with
+  | d :: r => if negb (is_digit d) then None
+              else Some (if Ascii.eqb d "0" then ([d], r) else take_digits l)
+  end.
+
+Definition num_frac (l : list ascii) : option (list ascii * list ascii) :=
+  match l with
+  | "." :: r2 => let (ds, l3) := take_digits r2 in
+                 match ds with [] => None | _ => Some ("." :: ds, l3) end
+  | _ => Some ([], l)
+  end.
+
+Definition exp_sign (l : list ascii) : list ascii * list ascii :=
+  match l with
+  | "+" :: r' => (["+"], r')
+  | "-" :: r' => (["-"], r')
+  | _ => ([], l)
+  end.
+
+Definition num_exp (l : list ascii) : option (list ascii * list ascii) :=
+  match l with
+  | e :: r3 =>
+    if Ascii.eqb e "e" || Ascii.eqb e "E" then
+      let (sg, r4) := exp_sign r3 in
+      let (ds, l4) := take_digits r4 in
+      match ds with [] => None | _ => Some (e :: sg ++ ds, l4) end
+    else Some ([], l)
+  | [] => Some ([], l)
+  end.
+
+Definition parse_num (l : list ascii) : option (list ascii * list ascii) :=
+  let (sign, l1) := num_sign l in
+  match num_int l1 with
+  | None => None
+  | Some (int_part, l2) =>
+    match num_frac l2 with
     | None => None
     | Some (frac_part, l3) =>
-      let exp :=
-        match l3 with
-        | e :: r3 =>
-          if Ascii.eqb e "e" || Ascii.eqb e "E" then
-            let (sg, r4) := match r3 with
-                            | "+" :: r' => (["+"], r')
-                            | "-" :: r' => (["-"], r')
-                            | _ => ([], r3)
-                            end in
-            let (ds, l4) := take_digits r4 in
-            match ds with [] => None | _ => Some (e :: sg ++ ds, l4) end
-          else Some ([], l3)
-        | [] => Some ([], l3)
-        end in
-      match exp with
+      match num_exp l3 with
       | None => None
       | Some (exp_part, l4) => Some (sign ++ int_part ++ frac_part ++ exp_part, l4)
       end
@@ -246,14 +271,14 @@ Fixpoint parse_value (fuel : nat) (l : list ascii) : option (json * list ascii) 
     | [] => None
     | ch :: r =>
       if Ascii.eqb ch "{" then
-        match skip_ws r with
-        | "}" :: r' => Some (JObj [], r')
-        | r1 => parse_members f r1 []
+        match hd_is "}" (skip_ws r) with
+        | Some r' => Some (JObj [], r')
+        | None => parse_members f (skip_ws r) []
         end
       else if Ascii.eqb ch "[" then
-        match skip_ws r with
-        | "]" :: r' => Some (JArr [], r')
-        | r1 => parse_elems f r1 []
+        match hd_is "]" (skip_ws r) with
+        | Some r' => Some (JArr [], r')
+        | None => parse_elems f (skip_ws r) []
         end
       else if Ascii.eqb ch """" then
         match parse_str (S (List.length r)) r [] with
@@ -268,27 +293,30 @@ with parse_members (fuel : nat) (l : list ascii) (acc : list (string * json)) : 
   match fuel with
   | O => None
   | S f =>
-    match l with
-    | """" :: r =>
+    match hd_is """" l with
+    | Some r =>
       match parse_str (S (List.length r)) r [] with
       | None => None
       | Some (k, r1) =>
-        match skip_ws r1 with
-        | ":" :: r2 =>
+        match hd_is ":" (skip_ws r1) with
+        | Some r2 =>
           match parse_value f r2 with
           | None => None
           | Some (v, r3) =>
             let acc' := oset acc k v in
-            match skip_ws r3 with
-            | "," :: r4 => parse_members f (skip_ws r4) acc'
-            | "}" :: r4 => Some (JObj acc', r4)
-            | _ => None
+            match hd_is "," (skip_ws r3) with
+            | Some r4 => parse_members f (skip_ws r4) acc'
+            | None =>
+              match hd_is "}" (skip_ws r3) with
+              | Some r4 => Some (JObj acc', r4)
+              | None => None
+              end
             end
           end
-        | _ => None
+        | None => None
         end
       end
-    | _ => None
+    | None => None
     end
   end
 (* elements of an array; acc is reversed *)
@@ -296,19 +324,21 @@ with parse_elems (fuel : nat) (l : list ascii) (acc : list json) : option (json 
   match fuel with
   | O => None
   | S f =>
-    match l with
-    | "]" :: _ => None
-    | "}" :: _ => None
-    | _ =>
+    match hd_is "]" l, hd_is "}" l with
+    | None, None =>
       match parse_value f l with
       | None => None
       | Some (v, r1) =>
-        match skip_ws r1 with
-        | "," :: r2 => parse_elems f (skip_ws r2) (v :: acc)
-        | "]" :: r2 => Some (JArr (rev' (v :: acc)), r2)
-        | _ => None
+        match hd_is "," (skip_ws r1) with
+        | Some r2 => parse_elems f (skip_ws r2) (v :: acc)
+        | None =>
+          match hd_is "]" (skip_ws r1) with
+          | Some r2 => Some (JArr (rev' (v :: acc)), r2)
+          | None => None
+          end
         end
       end
+    | _, _ => None
     end
   end.
 
